@@ -387,6 +387,10 @@ func newSwampWaiter() *SwampWaiter {
 // mutexes: clean
 func (h *hydra) SummonSwamp(ctx context.Context, islandID uint64, swampName name.Name) (swampObj swamp.Swamp, err error) {
 
+	if verifhook.Enabled {
+		verifhook.Point("summon.enter", ctx, swampName.Get())
+	}
+
 	if atomic.LoadInt32(&h.shuttingDown) == 1 {
 		return nil, errors.New(ErrorHydraIsShuttingDown)
 	}
